@@ -177,14 +177,14 @@ EXTRA = {
     'C05': ' Rounds 3-4: definition-time expressions visited in the enclosing scope (C05.R3b), star arguments resolved after explicit ones, the composed algebra\'s soundness columns (C05.R10). Round 5: two traversals of loop bodies (D29), every recorded call re-evaluated against late taints (D28), pre-scan helper exhaustive while relied upon (C05.R4b). Round 6: re-evaluation table (C05.R9c), enclosing lookup (C05.R9d). Round 7: comprehension back-edge (C05.R4, D40), visit_Attribute traverses its object and taints a parameter it is taken from (C05.R11, D41), globals merely read may be kept (C05.R5), operands of several star arguments are visited (C05.R12), generator expressions are lazy (C05.R13), nothing is visited before the comprehension mark (D40b). Round 8 / sweep 5: main/nested marker for every named-parameter loop incl. polarity (C05.R2), visits counted rather than mentions.',
     'C06': ' Rounds 3-4: get_ast decides by __code__ not by type (C06.R4b), resolution order table (C06.R8). Round 5: drain order of the deferred calls, empty closure cell vs not-free. Later: known arguments threaded by name (C06.R9), subject search (C06.R4c). Round 7: attribute handler (C06.R10), the object of an attribute access is visited once (C06.R10b), reading a global keeps it (C06.R6, D44), partial\'s function taken from the explicit arguments (C06.R11, known D51), only the star parameters are tainted by an attribute read (D41c).',
     'C07': ' Rounds 3-4: nullable AST children tested before visiting (C07.R9), no subscripting of __builtins__ (C07.R7b), LBYL probes counted. Round 5: implicit AttributeError sources through the escape analysis (C07.R4b), partial provenance-map lookups (C07.R10). Later: definite assignment of locals over the retrieval closure (C07.R11), output protocol of the Sphinx hook (C07.R5d). Round 6: index guards (C07.R12), the subject is not hashed (C07.R13, known finding D34), two wrong review entries removed (D33 fixed). Round 7: operations on resolved live values are handled (C07.R14, D50), the autodoc hook is total and binds callables only (C07.R15, D49). Round 8: embed\'s duplicate-name rejection as part of the narrowing clause (C07.R16).',
-    'C08': ' Rounds 3-4: merge_depths writes under membership and comparison, bookkeeping table B6 per flags, early returns of _mask in partial mode. Round 5: removals from the united provenance map. Round 7: replace(parameters=) restricts the provenance map (C08.R8, D47), depth increment past the forwarding callable (C08.R5, D48), provenance of what hide_args removes. Round 8 / sweep 5: merge_depths never written blindly (setdefault/update), depth increment adds one (C08.R5).',
+    'C08': ' Rounds 3-4: merge_depths writes under membership and comparison, bookkeeping table B6 per flags, early returns of _mask in partial mode. Round 5: removals from the united provenance map. Round 7: replace(parameters=) restricts the provenance map (C08.R8, D47), depth increment past the forwarding callable (C08.R5, D48), provenance of what hide_args removes. Round 8 / sweep 5: merge_depths never written blindly (setdefault/update), depth increment adds one (C08.R5). Round 9: every feed of the forwarding-callables collection after the first adds to it, and the depth comprehension filters on presence (C08.R5f).',
     'C09': ' Rounds 3-4: fold law read off merge() (C09.R4f), replace takes base-class overrides as given (C09.R2b), star-name column.',
     'C10': ' Rounds 3-4: conversion order for _Merger (C10.R4), rows of the partial table (C10.R5), upgraded-annotation test set aside. Round 5: star parameters standing for both inputs are conciled (C10.R1s). Round 7: a disagreement between annotations is remembered (C10.R6, known D57).',
     'C11': ' Rounds 3-4: pairing of annotation and upgraded annotation at every construction site (C11.R2c). Round 7: annotate survives discovery (C11.R5, known D54), agreement decided on denotations (C11.R6, known D55), annotations paired with the owner through __wrapped__ (C11.R7, D56); non-text annotations stay pre-evaluated. Round 8 / sweep 5: a slot is overridden by its own argument only (C11.R1), owner accepted by capability (C11.R8), slot polarity (C11.R1d).',
-    'C12': ' Rounds 3-4: targets of functools.partial do not edit bound arguments in place (C12.R3p). Round 5: position records count in the whole parameter list (C12.R1k), empty selections do not reach the pass-through __new__ (C12.R5). Later: definite assignment (C12.R6). Round 6: stacked selections (C12.R7). Round 7: identity comparison of the empty marker (C12.R8), bound copy built from an adjusted selection (C12.R9, known D52), receiver name of the pass-through __call__ (C12.R10, known D53). Sweep 5: admissibility of the selection in _prepare (C12.R1a: the after-a-regular-parameter flag is set, a selected non-regular parameter raises).',
+    'C12': ' Rounds 3-4: targets of functools.partial do not edit bound arguments in place (C12.R3p). Round 5: position records count in the whole parameter list (C12.R1k), empty selections do not reach the pass-through __new__ (C12.R5). Later: definite assignment (C12.R6). Round 6: stacked selections (C12.R7). Round 7: identity comparison of the empty marker (C12.R8), bound copy built from an adjusted selection (C12.R9, known D52), receiver name of the pass-through __call__ (C12.R10, known D53). Sweep 5: admissibility of the selection in _prepare (C12.R1a: the after-a-regular-parameter flag is set, a selected non-regular parameter raises). Round 9: anchor-based getters (start=/end=) re-run their factory with its own leading parameters, unedited, never with names resolved on the unbound function (C12.R11).',
     'C13': ' Rounds 3-4: thread-local attributes read tolerantly (C13.R6c), wrappers() lists every layer (universal C13.R5), universal safe_get table. Round 6: operands of specifiers.forwards (C13.R4). Round 7: forged signature visible to inspect (C13.R7, known D46), receiver names of the pass-through __call__ methods (C13.R8, known D53 x3).',
     'C14': ' Rounds 3-4: base-class overrides decided neither by truthiness nor by is-None (also at value level), _upgrade idempotent (C14.R3b), sibling agreement on __eq__ (C14.R1s). Round 5: parameter iterables materialised before being traversed twice (C14.R5, D30), __eq__ must not evaluate source text outside a handler (C14.R1e, known finding D31), receiver slots kept as they are. Round 6: upgrade on every way out of forged_signature (C14.R6). Round 7: eval() only sees text (C14.R7, D35), __eq__ reflexive by shape (C14.R8, D36). Round 8 / sweep 5: replace never returns its receiver (C14.R3c), slot polarity (C14.R3d), what __eq__ answers (C14.R9).',
-    'C15': ' Rounds 3-4: helper contracts give every provenance map its own +depths (C15.R9), _upgrade idempotent (C15.R4c). Round 5: accumulator read by position (C15.R10). Later: definite assignment over the algebra closure (C15.R11). Round 6: index guards over the algebra closure (C15.R12). Round 7: every ValueError-raising call of merge/embed, the validating construction included, lies in the converting try (C15.R13, D43). Round 8: names-versus-parameters contract of _remove_from_src at every call site (C15.R14).',
+    'C15': ' Rounds 3-4: helper contracts give every provenance map its own +depths (C15.R9), _upgrade idempotent (C15.R4c). Round 5: accumulator read by position (C15.R10). Later: definite assignment over the algebra closure (C15.R11). Round 6: index guards over the algebra closure (C15.R12). Round 7: every ValueError-raising call of merge/embed, the validating construction included, lies in the converting try (C15.R13, D43). Round 8: names-versus-parameters contract of _remove_from_src at every call site (C15.R14). Round 9: entries are removed from provenance maps (input handles and the private copies of sort_params/copy_sources) only with a default, behind a membership test or inside a KeyError handler (C15.R7d).',
     'C16': ' Rounds 3-4: unconditional restoration in __exit__, results of _upgrade are not fresh objects, classification buckets fresh (C16.R1f). Round 7: the delete/restore window saves the object\'s own entry, not what attribute lookup evaluates to (C16.R3r, D42). Round 8: the package\'s replace overrides return fresh objects (C16.R2b).',
     'C17': ' Rounds 3-4: __exit__ never deletes (C17.R5), flags published after the state they announce (C17.R6), inventory of implicit followers of the windowed attributes (C17.R7). Round 6: guard-clause form of one-time flags, shared singletons of package classes. Round 7: inspect.unwrap in plain retrieval is one more follower exposed to the window (listed under the known D6).',
     'C18': ' Rounds 3-4: private name sets (C18.R2c), getter protocol (C18.R4c), no memoising decorators (C18.R5), descriptor rebinding through safe_get (C18.R6). Round 5: re-preparation drops the cache of bound copies (C18.R7, D27), as_forged subject (C18.R6b). Round 6: partial targets pure (C18.R8), every returning path of annotate judged. Round 8: every path of _merge_other composes the getters.',
